@@ -402,10 +402,11 @@ def run_case(ctx, case):  # noqa: F811
     else:
         delta = 0
     rec = []
+    full = []
     orig = torch.linalg.svd
 
     def wrapped(A, *a, **k):
-        out = orig(A, *a, **k); rec.append(out[1].detach().clone()); return out
+        out = orig(A, *a, **k); rec.append(out[1].detach().clone()); full.append((A.detach().clone(), [x.detach().clone() for x in out])); return out
     torch.linalg.svd = wrapped
     try:
         r = safe(lambda: tn.truncated_svd(Mt, **kw))
@@ -430,5 +431,29 @@ def run_case(ctx, case):  # noqa: F811
         ctx.corr("model rank_select failed: %s" % " ".join(toks[:4]), case); return
     mr = int(toks[2])
     ir = r[1][0].shape[1]
+    # ---- the kernel contract the Lean theorems assume (C05.SVDok / SVDok2), validated on the recorded call:
+    #      A = U diag(S) Vh, U^T U = I, Vh Vh^T = I, S descending and non-negative
+    A, (Uk, Sk, Vhk) = full[0]
+    kk = Sk.shape[0]
+    Uk, Vhk = Uk[:, :kk], Vhk[:kk, :]
+    sc = max(1.0, float(Sk[0]))
+    okc = float((Uk * Sk @ Vhk - A).abs().max()) <= 1e-10 * sc and float((Uk.T @ Uk - torch.eye(kk, dtype=Uk.dtype)).abs().max()) <= 1e-10 \
+        and float((Vhk @ Vhk.T - torch.eye(kk, dtype=Uk.dtype)).abs().max()) <= 1e-10 and bool((Sk[:-1] >= Sk[1:]).all()) and float(Sk.min()) >= 0
+    if not okc:
+        ctx.corr("kernel contract SVDok does not hold for the recorded torch.linalg.svd call", case); return
+    ctx.count("kernel contract SVDok validated")
+    # ---- the conclusion of C05.truncation_right_factor / truncation_error on the real output: left @ right is the rank-r truncation
+    #      of the kernel's SVD (of the matrix the kernel was given: M or its transpose)
+    left, right = r[1][0], r[1][1]
+    trunc = (Uk[:, :ir] * Sk[:ir]) @ Vhk[:ir, :]
+    prod = left @ right
+    if tuple(A.shape) != tuple(prod.shape):
+        trunc = trunc.T
+    if float((prod - trunc).abs().max()) > 1e-9 * sc:
+        ctx.corr("left @ right differs from the rank-%d truncation of the kernel's SVD by %.3g" % (ir, float((prod - trunc).abs().max())), case); return
+    err2 = float(((torch.tensor(M) - prod) ** 2).sum()); tail = float((Sk[ir:] ** 2).sum())
+    if abs(err2 - tail) > 1e-9 * sc * sc:
+        ctx.corr("||M - left@right||^2 = %.6g differs from the discarded tail %.6g (C05.truncation_error)" % (err2, tail), case); return
+    ctx.count("truncation identity checked")
     if mr != ir:
         ctx.corr("truncated_svd chose rank %d, the model's rankSelect gives %d (S=%s, delta^2=%g, rmax=%s)" % (ir, mr, S.tolist(), d2, case["rmax"]), case)
